@@ -520,8 +520,8 @@ def nest_once(rng, spec: dict, sub_name: str, *, allow_rename=True, allow_bind=T
             taken = {ref.node_name(x) for x in flat["nodes"]}
             used = {e2 for x in flat["nodes"] for _, e2 in ref.node_inputs(x)} | {e2 for x in flat["nodes"] for _, e2 in ref.node_outputs(x)}
             for e in list(sigma):
-                if e in (inner.get("bind") or {}) and rng.random() < 0.6 and f"reuse_{e}" not in taken and e not in used:
-                    extra = {"k": "fn", "name": f"reuse_{e}", "fid": f"reuse_{e}", "params": [{"n": e, "d": f"def:{e}"}], "outs": [f"reuse_{e}_out"]}
+                if e in (inner.get("bind") or {}) and rng.random() < 0.6 and f"reuse_{e}_{sub_name}" not in taken and e not in used:
+                    extra = {"k": "fn", "name": f"reuse_{e}_{sub_name}", "fid": f"reuse_{e}_{sub_name}", "params": [{"n": e, "d": f"def:{e}"}], "outs": [f"reuse_{e}_{sub_name}_out"]}
                     flat["nodes"].append(copy.deepcopy(extra))
                     nested["nodes"].append(copy.deepcopy(extra))
                     info.setdefault("reused_inner_names", []).append(e)
